@@ -615,6 +615,12 @@ func (t *ftr) ioExpr(e ast.Expr, hint *ty) (ex, bool) {
 			if hint != nil && hint.k == "merrs" {
 				return ex{"([] : List GoSnaps.GoIO.MErr)", tMErrs, false}, true
 			}
+		case "defaultConfig":
+			// Config{snapsDir: "__snapshots__"} (fact group defaultConfig: no other field is set), the
+			// model's default Cfg
+			if t.lookup(e.Name) == nil && t.sp.pkg == "snaps" {
+				return ex{"({} : GoSnaps.Cfg)", tCfg, false}, true
+			}
 		case "isCI":
 			if t.lookup(e.Name) == nil && t.sp.fx == "st" {
 				return ex{"st.env.isCI", tBool, false}, true
@@ -696,8 +702,21 @@ func (t *ftr) ioExpr(e ast.Expr, hint *ty) (ex, bool) {
 				}
 			}
 		}
+	case *ast.StarExpr:
+		// *c: the Config a pointer refers to (a copy, in value semantics the Config itself)
+		if id, ok := e.X.(*ast.Ident); ok && t.lookup(id.Name) != nil && t.lookup(id.Name).k == "cfg" {
+			return ex{t.ln(id.Name), tCfg, false}, true
+		}
 	case *ast.UnaryExpr:
 		if e.Op == token.AND {
+			if id, ok := e.X.(*ast.Ident); ok {
+				if vt := t.lookup(id.Name); vt != nil && vt.k == "cfg" {
+					return ex{t.ln(id.Name), tCfg, false}, true
+				}
+				if id.Name == "defaultConfig" && t.lookup(id.Name) == nil && t.sp.pkg == "snaps" {
+					return ex{"({} : GoSnaps.Cfg)", tCfg, false}, true
+				}
+			}
 			if cl, ok := e.X.(*ast.CompositeLit); ok {
 				switch t.src(cl.Type) {
 				case "anyMatcher", "customMatcher":
